@@ -120,6 +120,7 @@ pub fn check(c: &Case, seams_open: bool) -> CheckResult {
     let hw_dev = width / 2.0 * smax(&c.xf);
     let mut sharp = false;
     let mut reversal = false;
+    let mut exact_retrace = false;
     for p in &polys {
         let n = p.pts.len();
         if n < 3 {
@@ -135,10 +136,14 @@ pub fn check(c: &Case, seams_open: bool) -> CheckResult {
             if cs < -0.999 {
                 reversal = true;
             }
+            if p.pts[i + 1] == p.pts[i - 1] && crate::geom::len(d1) > 0.0 {
+                exact_retrace = true;
+            }
         }
     }
     o.class_if(sharp && hw_dev >= 1.5, "join-visible");
     o.class_if(reversal, "reversal");
+    o.class_if(exact_retrace && c.style.join == 1 && hw_dev >= 1.5, "exact-retrace-with-round-join");
     o.class_if(hw_dev >= 1.5 && c.style.cap != 0 && polys.iter().any(|p| !p.closed), "cap-visible");
     Ok(o)
 }
@@ -169,13 +174,23 @@ fn turtle(ext: f32) -> BoxedStrategy<(Vec<(f32, f32)>, bool)> {
         1 => prop::sample::select(vec![90.0f32, -90.0, 180.0, 0.0, 45.0, 135.0, -135.0]),
         1 => prop_oneof![-1.0f32..1.0, 179.0f32..181.0],
     ];
-    let step = (angle, prop_oneof![3 => 2.0f32..14.0, 1 => 0.25f32..2.0, 1 => Just(0.0f32)]);
+    // a step is a turn and a length, or (one in twelve) an exact retrace to the point before the current one:
+    // a reversal whose two normals are bit-exactly opposite, which no computed 180 degree turn produces
+    let step = (angle, prop_oneof![3 => 2.0f32..14.0, 1 => 0.25f32..2.0, 1 => Just(0.0f32)], prop::bool::weighted(0.08));
     (0.0f32..ext, 0.0f32..ext, 0.0f32..360.0, prop::collection::vec(step, 1..=5), any::<bool>(), prop::bool::weighted(0.3))
         .prop_map(move |(x, y, a0, steps, closed, explicit_return)| {
             let mut pts = vec![(x, y)];
             let mut dir = a0 as f64;
             let (mut cx, mut cy) = (x as f64, y as f64);
-            for (turn, l) in steps {
+            for (turn, l, retrace) in steps {
+                if retrace && pts.len() >= 2 {
+                    let p = pts[pts.len() - 2];
+                    pts.push(p);
+                    cx = p.0 as f64;
+                    cy = p.1 as f64;
+                    dir += 180.0;
+                    continue;
+                }
                 dir += turn as f64;
                 cx += dir.to_radians().cos() * l as f64;
                 cy += dir.to_radians().sin() * l as f64;
@@ -349,7 +364,7 @@ pub fn property(ctx: &Ctx) -> Property {
     let seams_open = ctx.excluded(SEAM_KEY);
     Property {
         id: "C04",
-        rule: "cases: 1-3 subpaths built by turtle steps (turning angles uniform, 0/45/90/135/180 degrees, within 1 degree of 0/180; segment lengths 0.25..14 px plus exact duplicate points), open or closed, or quadratic/cubic subpaths (curve class), widths 0.3..12 plus 0, -1 and NaN, all 3 caps x 3 joins, miter limits 0..12 incl. sqrt2, 2, 4, 10, transforms identity / translation / rotation x uniform scale 0.3-4 / anisotropic (condition <= 20, curves <= 4) / shear, white on transparent 24..40 px surfaces. part wide: polylines of 2-4 segments of 8..60 px through a vertex on the surface, device widths 30..110 px, turning angles mostly 0.2..6 degrees of either sign (also 0, general, near 180), open or closed, all caps/joins, identity or rotation x scale; same oracle (a join wedge of a shallow bend is only wider than the margin when the stroke is this wide). Oracle: union of convex pieces built from the statement (segment rectangles; round sector / bevel triangle / miter quadrilateral or bevel by the miter-limit test on the outer side of every interior and closing vertex; caps at both ends of open subpaths) in user space, exact membership through the inverse transform, union boundary sampled at 1/16 px; a pixel whose whole area is more than the margin (0.5 px polylines, 1 px curves) inside must be exactly 0xffffffff, more than the margin outside exactly 0; width <= 0 or NaN paints nothing. Non-trivial: >=1 must-paint and >=1 must-stay pixel; distinct by hash of the case.",
+        rule: "cases: 1-3 subpaths built by turtle steps (turning angles uniform, 0/45/90/135/180 degrees, within 1 degree of 0/180, and exact retraces to the previous point; segment lengths 0.25..14 px plus exact duplicate points), open or closed, or quadratic/cubic subpaths (curve class), widths 0.3..12 plus 0, -1 and NaN, all 3 caps x 3 joins, miter limits 0..12 incl. sqrt2, 2, 4, 10, transforms identity / translation / rotation x uniform scale 0.3-4 / anisotropic (condition <= 20, curves <= 4) / shear, white on transparent 24..40 px surfaces. part wide: polylines of 2-4 segments of 8..60 px through a vertex on the surface, device widths 30..110 px, turning angles mostly 0.2..6 degrees of either sign (also 0, general, near 180), open or closed, all caps/joins, identity or rotation x scale; same oracle (a join wedge of a shallow bend is only wider than the margin when the stroke is this wide). Oracle: union of convex pieces built from the statement (segment rectangles; round sector / bevel triangle / miter quadrilateral or bevel by the miter-limit test on the outer side of every interior and closing vertex; caps at both ends of open subpaths) in user space, exact membership through the inverse transform, union boundary sampled at 1/16 px; a pixel whose whole area is more than the margin (0.5 px polylines, 1 px curves) inside must be exactly 0xffffffff, more than the margin outside exactly 0; width <= 0 or NaN paints nothing. Non-trivial: >=1 must-paint and >=1 must-stay pixel; distinct by hash of the case.",
         assumptions: vec![
             "a band of margin + half a pixel diagonal + 1/32 px around the region boundary is not judged",
             "threshold decisions (miter limit within 1e-3, turning angle within 1e-3 of 0/180 degrees) are taken the smaller way for 'must paint' and the larger way for 'must stay'",
@@ -363,6 +378,7 @@ pub fn property(ctx: &Ctx) -> Property {
             ("region", "closed-subpath", 0.2),
             ("region", "closed-with-explicit-return-to-start", 0.03),
             ("region", "width<=0-or-nan", 0.03),
+            ("region", "exact-retrace-with-round-join", 0.01),
             ("region", "xf:general", 0.1),
         ],
         panic_is_violation: false,
